@@ -81,6 +81,11 @@ class Env:
                 st, exc = None, e
         finally:
             signal.alarm(0)
+        # the value handed in belongs to the caller: evaluating on it must not change it
+        self.input_mutated = None
+        if input_idx is not None and not R.equal(inp, INPUTS[input_idx]):
+            self.input_mutated = (R.short(INPUTS[input_idx]), R.short(inp))
+            self.count("injected_input_mutated")
         return outcome_of(st, exc), st, log
 
     def reference(self, q, input_idx=None, extra=None):
